@@ -364,7 +364,7 @@ def run(ctx):
         except Violation as v:
             ctx.report(case, v)
             return
-    for cycles in ((1000,) if ctx.small else (70000,) if ctx.tier == 'quick' else (70000, 2 ** 20 + 16)):
+    for cycles in ((1000,) if ctx.small else (70000, 2 ** 20 + 16) if ctx.tier == 'quick' else (70000, 2 ** 20 + 16, 2 ** 24 + 16)):
         case = {'leg': 'long_history', 'cycles': cycles}
         ctx.traces += 1
         ctx.transitions += 2 * cycles
@@ -373,7 +373,7 @@ def run(ctx):
         except Violation as v:
             ctx.report(case, v)
             return
-    ctx.leg('long_history', note='single deep histories of 70 000 (thorough: 2^20+16) register/remove cycles; churn of '
+    ctx.leg('long_history', note='single deep histories of 70 000 and 2^20+16 (thorough: also 2^24+16) register/remove cycles; churn of '
                                  '200 short-lived colliding / new system objects')
     nc = 0
     for case in clone_cases():
